@@ -20,6 +20,9 @@ STRFUNCS = {"CHR$", "LEFT$", "RIGHT$", "MID$", "STR$", "HEX$", "STRING$", "INKEY
 TOK = re.compile(r'\s*(?:(?P<str>"[^"]*"?)|(?P<hex>&\s*H\s*[0-9A-F]*)|(?P<num>(?:\d+\.?\d*|\.\d+)(?:\s*E(?!LSE)\s*[+-]?\s*\d*)?)|(?P<id>[A-Z][A-Z0-9]*\$?)|(?P<op><=|>=|<>|><|=<|=>|[-+*/^=<>(),;:@?\'#]))')
 
 
+STR_WITH_PRINT_BLANK = False  # C05 only: mimic the known STR$ trailing blank so that call order stays observable
+
+
 class DecbError(Exception):
     """Color BASIC run-time error (?SN, ?TM, ?FC, ?OD, ?NF, ?RG, ?BS, ?/0, ?OV, ?DD, ?UL ...)."""
 
@@ -801,7 +804,8 @@ class Machine:
             return st(0)[p - 1:p - 1 + n]
         if name == "STR$":
             self.calls.append(("ecb_str", (num(0),)))
-            return decb_num_image(num(0))
+            img = decb_num_image(num(0))
+            return img if (img is UNSPEC or not STR_WITH_PRINT_BLANK) else img + " "
         if name == "HEX$":
             n = math.floor(num(0))
             self.calls.append(("ecb_hex", (num(0),)))
@@ -872,7 +876,17 @@ class Machine:
         if k in ("rem", "data", "tron", "troff"):
             return None
         if k == "let":
-            self.put(s[1], self.ev(s[2]))
+            # Microsoft BASIC locates the target (evaluating its subscripts) before it evaluates the right-hand side
+            tgt = s[1]
+            if tgt[2] is not None:
+                arr = self.array(tgt[1], len(tgt[2]))
+                idx = self.subs(arr, tgt[2])
+                val = self.ev(s[2])
+                if val is not UNSPEC and (isinstance(val, str) != tgt[1].endswith("$")):
+                    raise DecbError("TM")
+                arr["data"][idx] = val
+            else:
+                self.put(tgt, self.ev(s[2]))
             return None
         if k == "print":
             self.do_print(s)
